@@ -3,7 +3,8 @@
 Scenario A is run (1) alone, (2) inside the cooperative scheduler together with 1-3 other
 scenarios - the baton is switched at every evaluator call and event by the seeded scheduler
 and NumPy's global generator is reseeded and drawn from at every switch and inside the
-evaluator - and (3) after other runs in the same process with the plug-in manager re-used.
+evaluator - (3) after other runs in the same process with the plug-in manager re-used, and (3b) twice with
+one and the same validated configuration object.
 Traces (evaluator requests, results, exit codes) must be byte-identical; with only
 gradient.seed changed the perturbations must differ."""
 from __future__ import annotations
@@ -40,7 +41,7 @@ COMPONENTS = {
     "real": ["EnsembleEvaluator RNG handling", "SciPySampler (all methods)", "PluginManager (cached entry-point plug-ins)", "plan / steps", "scipy.optimize incl. differential_evolution (50% of runs)"],
     "stub": ["cooperative scheduler (baton-passing threads)", "SimEvaluator", "sim/scripted optimizer"],
 }
-PROBES = ["fresh_interpreter_other_hashseed", "interleaved_runs", "switches", "gradient_evaluations", "builtin_sampler_runs", "de_runs", "real_scipy_runs",
+PROBES = ["reused_config_object_runs", "fresh_interpreter_other_hashseed", "interleaved_runs", "switches", "gradient_evaluations", "builtin_sampler_runs", "de_runs", "real_scipy_runs",
           "reused_manager_runs", "seed_change_checked", "companions", "global_rng_draws_in_evaluator"]
 METHODS = ["uniform", "norm", "truncnorm", "sobol", "halton", "lhs"]
 REAL = ["slsqp", "l-bfgs-b", "nelder-mead", "cobyla"]
@@ -155,6 +156,20 @@ def execute(scn: dict) -> dict:
     if d3 != d1:
         viol.append({"clause": "trace-differs-after-other-runs", "sig": {"backend": backend, "reuse": bool(scn.get("reuse"))},
                      "detail": f"{_first_difference(solo, again)} (plug-in manager {'re-used' if scn.get('reuse') else 'fresh'})"})
+    # (3b) the same validated configuration object used for two runs (as plans with several steps,
+    # restarts and nested optimizations do)
+    sh2 = {"reuse_validated": True}
+    first = _run_solo(A, sh2)
+    np.random.random(2)
+    second = _run_solo(A, sh2)
+    probe("reused_config_object_runs")
+    for label, run in (("first", first), ("second", second)):
+        dd = harness.trace_digest(run)
+        if dd != d1:
+            viol.append({"clause": "trace-differs-when-config-object-reused", "sig": {"backend": backend, "which": label},
+                         "detail": f"{label} run with a shared validated EnOptConfig object: {_first_difference(solo, run)} "
+                                   f"(samplers {[s_['method'] for s_ in A['configs'][0]['samplers']]})"})
+            break
     # seed change changes the perturbations
     # (only for samplers with a continuous distribution: the scrambling of a Sobol/Halton sequence is a
     # discrete object and two seeds may legitimately produce the same few points)
